@@ -87,6 +87,10 @@ def plant(D):
         # an anonymous bundle with a member the port's bundle does not have
         if conn["t"]["k"] == "anon" and sigs:
             yield mut(lambda D2, m2, i2, c2: c2["t"]["mem"].append({"n": "zz", "t": Sig(sigs[0]["n"])}), "ref_to_missing_bundle_member")
+            # ... the same one level down: inside a nested anonymous bundle given for a sub-bundle of the port
+            for mi, mem in enumerate(conn["t"]["mem"]):
+                if mem["t"]["k"] == "anon":
+                    yield mut(lambda D2, m2, i2, c2, mi=mi: c2["t"]["mem"][mi]["t"]["mem"].append({"n": "zz", "t": Sig(sigs[0]["n"])}), "ref_to_missing_bundle_member")
         # faults inside the term: at every replaceable position
         t = conn["t"]
         for pos, (cont, key) in enumerate(sig_terms(t)):
@@ -139,6 +143,11 @@ def plant(D):
         yield "module_name_clash", D2
 
 
+def _has_nested_anon(D):
+    return any(c["t"]["k"] == "anon" and any(mem["t"]["k"] == "anon" for mem in c["t"]["mem"])
+               for m in D["mods"].values() for i in m["insts"] for c in i["conns"])
+
+
 def plant_all(base, tier, rnd):
     """mutants of (a sample of) the valid-looking base designs; returns [(family, design)]"""
     out = []
@@ -148,6 +157,9 @@ def plant_all(base, tier, rnd):
     nbase = 12 if tier == "quick" else 120
     for fam, ds in per_fam.items():
         pick = rnd.sample(ds, min(nbase, len(ds)))
+        # designs with constructs few designs have are always among the bases (a seeded sample of a dozen would rarely hold one)
+        rare = [D for D in ds if _has_nested_anon(D) and D not in pick]
+        pick += rare[:3]
         for D in pick:
             for cls, D2 in plant(D):
                 out.append((fam + "+" + cls, D2))
